@@ -501,6 +501,87 @@ def as_expression(stmts):
     return e
 
 
+def distribute_selectors(fn, limit_rest=12, limit_arms=6):
+    """an if/elif ladder whose arms only choose values for some locals - `if c1: word = "int"; fmt = f1  elif c2: ...  else: raise` - followed by
+    code that uses the chosen values: the code that follows is moved into every arm with the chosen values written in place (the ladder then
+    reads like the one a developer writes out by hand).  Arms may also raise.  Exact: each arm runs what it ran before."""
+    local = _stored_names(fn)
+
+    def simple_value(e):
+        """a literal, a lambda, or a reference to something of module level (a helper function, np.exp, '{}'.format) - never state of the call"""
+        if isinstance(e, (ast.Constant, ast.Lambda)):
+            return True
+        if isinstance(e, ast.Name):
+            return e.id not in local
+        if isinstance(e, ast.Attribute):
+            return simple_value(e.value)
+        return False
+
+    def arms_of(s_):
+        arms = []
+        cur = s_
+        while True:
+            arms.append(cur.body)
+            if len(cur.orelse) == 1 and isinstance(cur.orelse[0], ast.If):
+                cur = cur.orelse[0]
+                continue
+            arms.append(cur.orelse)
+            return arms
+
+    def fblock(stmts):
+        for i, s_ in enumerate(stmts):
+            if not isinstance(s_, ast.If) or i + 1 >= len(stmts):
+                continue
+            arms = arms_of(s_)
+            rest = stmts[i + 1:]
+            if not (2 <= len(arms) <= limit_arms + 1) or len(rest) > limit_rest:
+                continue
+            names = set()
+            ok = True
+            choosing = 0
+            for a in arms:
+                if _always_leaves(a) and all(isinstance(x, (ast.Raise, ast.Return, ast.Expr)) for x in a):
+                    continue
+                if not a or not all(isinstance(x, ast.Assign) and len(x.targets) == 1 and isinstance(x.targets[0], ast.Name) and simple_value(x.value) for x in a):
+                    ok = False
+                    break
+                names |= {x.targets[0].id for x in a}
+                choosing += 1
+            if not ok or choosing < 2 or not names:
+                continue
+            # every choosing arm binds all of the names; the rest reads them and never rebinds them; nothing else in the function reads them
+            if any({x.targets[0].id for x in a} != names for a in arms if a and not _always_leaves(a)):
+                continue
+            if any(not a for a in arms):
+                continue          # a fall-through arm (no else) would leave the names unbound: not this shape
+            rest_stores = set()
+            for r_ in rest:
+                rest_stores |= _stored_names(r_)
+            if names & rest_stores:
+                continue
+            if not any(isinstance(x, ast.Name) and x.id in names for r_ in rest for x in ast.walk(r_)):
+                continue
+            tests_read = any(isinstance(x, ast.Name) and x.id in names for x in ast.walk(s_.test))
+            if tests_read:
+                continue
+
+            def rebuild(cur):
+                def arm(body):
+                    if _always_leaves(body):
+                        return body
+                    env = {x.targets[0].id: x.value for x in body}
+                    return [_Rename({}, env).visit(copy.deepcopy(r_)) for r_ in rest]
+                new = ast.If(test=cur.test, body=arm(cur.body), orelse=[])
+                if len(cur.orelse) == 1 and isinstance(cur.orelse[0], ast.If):
+                    new.orelse = [rebuild(cur.orelse[0])]
+                else:
+                    new.orelse = arm(cur.orelse)
+                return ast.copy_location(new, cur)
+            return stmts[:i] + [rebuild(s_)]
+        return stmts
+    return _map_blocks(fn, fblock)
+
+
 def guard_form(fn):
     """`if c: A else: B` with A leaving the block on every path (return / raise / continue / break) -> `if c: A` followed by B: the
     guard-clause spelling is the canonical one (an inlined helper or an elif ladder of returns reads like a sequence of guards)."""
@@ -817,6 +898,9 @@ def materialise_generators(ix, f, fn, keep):
                     continue
                 calls = [c for c in ast.walk(g.elt) if isinstance(c, ast.Call) and _resolve_helper(ix, f, c, keep) is not None]
                 multi = [c for c in calls if single_return((getattr(_resolve_helper(ix, f, c, keep), "orig", None) or _resolve_helper(ix, f, c, keep).node))[0] is None]
+                # closures defined at the top of this function are helpers like any other
+                closures = {d_.name: d_ for d_ in fn.body if isinstance(d_, ast.FunctionDef)}
+                multi += [c for c in ast.walk(g.elt) if isinstance(c, ast.Call) and isinstance(c.func, ast.Name) and c.func.id in closures and single_return(closures[c.func.id])[0] is None]
                 if not multi:
                     continue
                 for x in postorder(s):
@@ -824,13 +908,103 @@ def materialise_generators(ix, f, fn, keep):
                         return n, g
                     if any(x is y for y in ast.walk(g)):
                         continue
-                    if not isinstance(x, (ast.Name, ast.Constant, ast.Attribute, ast.expr_context)):
+                    if not isinstance(x, (ast.Name, ast.Constant, ast.Attribute, ast.expr_context, ast.operator, ast.unaryop, ast.cmpop, ast.boolop)):
                         break
         return None
+
+    def generator_helper(call):
+        """the package generator function a call refers to (its body yields as statements only and returns no value)"""
+        if not isinstance(call, ast.Call):
+            return None
+        g = None
+        if isinstance(call.func, ast.Name):
+            g = ix.funcs.get(ix.resolve_name(f.mod, call.func.id))
+        elif isinstance(call.func, ast.Attribute) and isinstance(call.func.value, ast.Name) and call.func.value.id in ("self", "cls") and f.cls:
+            g = ix.funcs.get("%s.%s" % (f.cls, call.func.attr))
+        if g is None or g.qual == f.qual or g.qual in keep:
+            return None
+        gnode = getattr(g, "orig", None) or g.node
+        if any(_decorator_name(d) not in ("staticmethod", "classmethod") for d in gnode.decorator_list):
+            return None
+        ys = [n for n in ast.walk(gnode) if isinstance(n, (ast.Yield, ast.YieldFrom))]
+        if not ys:
+            return None
+        stmt_yields = {id(n.value) for n in ast.walk(gnode) if isinstance(n, ast.Expr) and isinstance(n.value, (ast.Yield, ast.YieldFrom))}
+        if any(id(y) not in stmt_yields for y in ys) or any(isinstance(n, ast.Return) and n.value is not None for n in ast.walk(gnode)) \
+                or any(isinstance(n, (ast.Global, ast.Nonlocal, ast.Await, ast.Try)) for n in ast.walk(gnode)) \
+                or any(isinstance(n, ast.Return) for n in ast.walk(gnode)):
+            return None
+        return g
+
+    def gen_candidate(s):
+        """a call of a generator helper consumed at once - sep.join(G(..)) / list(G(..)) / tuple(G(..)) / sorted(G(..)) - with nothing
+        effectful evaluated in the statement before it"""
+        for n in ast.walk(s):
+            consumer = isinstance(n, ast.Call) and len(n.args) >= 1 and ((isinstance(n.func, ast.Attribute) and n.func.attr == "join" and len(n.args) == 1)
+                                                                         or (isinstance(n.func, ast.Name) and n.func.id in ("list", "tuple", "sorted") and len(n.args) == 1))
+            if consumer and generator_helper(n.args[0]) is not None:
+                gcall = n.args[0]
+                for x in postorder(s):
+                    if x is gcall:
+                        return n, gcall
+                    if any(x is y for y in ast.walk(gcall)):
+                        continue
+                    if not isinstance(x, (ast.Name, ast.Constant, ast.Attribute, ast.expr_context, ast.operator, ast.unaryop, ast.cmpop, ast.boolop)):
+                        break
+        return None
+
+    def expand_generator(s, consumer, gcall):
+        g = generator_helper(gcall)
+        gnode = copy.deepcopy(getattr(g, "orig", None) or g.node)
+        b = _bind_args(g, gnode, gcall)
+        if b is None:
+            return None
+        params, mapping = b
+        body = [x for x in gnode.body if not (isinstance(x, ast.Expr) and isinstance(x.value, ast.Constant))]
+        stores = set()
+        for x in body:
+            stores |= _stored_names(x)
+        _TMP[0] += 1
+        acc = "_acc%d" % _TMP[0]
+        caller = _stored_names(fn) | {n.id for n in ast.walk(fn) if isinstance(n, ast.Name)}
+        names, exprs, pre = {}, {}, []
+        for p_ in params:
+            if p_ in stores:
+                names[p_] = "_g%d_%s" % (_TMP[0], p_)
+                pre.append(ast.Assign(targets=[ast.Name(id=names[p_], ctx=ast.Store())], value=copy.deepcopy(mapping[p_])))
+            else:
+                exprs[p_] = mapping[p_]
+        for nm in stores - set(params):
+            if nm in caller:
+                names[nm] = "_g%d_%s" % (_TMP[0], nm)
+        ren = _Rename(names, exprs)
+        body = [ren.visit(x) for x in body]
+
+        class Y(ast.NodeTransformer):
+            def visit_Expr(self, node):
+                if isinstance(node.value, ast.Yield):
+                    v = node.value.value if node.value.value is not None else ast.Constant(value=None)
+                    return ast.copy_location(ast.Expr(value=ast.Call(func=ast.Attribute(value=ast.Name(id=acc, ctx=ast.Load()), attr="append", ctx=ast.Load()), args=[v], keywords=[])), node)
+                if isinstance(node.value, ast.YieldFrom):
+                    return ast.copy_location(ast.Expr(value=ast.Call(func=ast.Attribute(value=ast.Name(id=acc, ctx=ast.Load()), attr="extend", ctx=ast.Load()), args=[node.value.value], keywords=[])), node)
+                return node
+        body = [Y().visit(x) for x in body]
+        consumer.args[0] = ast.Name(id=acc, ctx=ast.Load())
+        res = [ast.Assign(targets=[ast.Name(id=acc, ctx=ast.Store())], value=ast.List(elts=[], ctx=ast.Load()))] + pre + body + [s]
+        for x in res:
+            ast.copy_location(x, s)
+            ast.fix_missing_locations(x)
+        return res
 
     def fblock(stmts):
         out = []
         for s in stmts:
+            gc = gen_candidate(s) if isinstance(s, (ast.Return, ast.Assign, ast.Expr)) else None
+            if gc is not None:
+                r = expand_generator(s, *gc)
+                if r is not None:
+                    out.extend(r)
+                    continue
             c = candidate(s) if isinstance(s, (ast.Return, ast.Assign, ast.Expr)) else None
             if c is None:
                 out.append(s)
@@ -896,6 +1070,153 @@ def expand_maps(ix, f, fn, keep):
             out.append(s)
         return out
     return _map_blocks(fn, fblock)
+
+
+def record_classes(ix):
+    """qual -> field names, for the record types of the package: classes deriving from typing.NamedTuple, @dataclass classes without a
+    hand-written __init__ / __post_init__, and names bound at module level to collections.namedtuple(...)"""
+    cache = ix.__dict__.setdefault("_records", None)
+    if cache is not None:
+        return cache
+    out = {}
+    for cq, c in ix.classes.items():
+        bases = [u(b) for b in c.bases]
+        decos = [_decorator_name(d) for d in c.decorator_list]
+        is_nt = any(b in ("NamedTuple", "typing.NamedTuple") for b in bases)
+        is_dc = any(d in ("dataclass", "dataclasses.dataclass") for d in decos)
+        if not (is_nt or is_dc):
+            continue
+        if any(isinstance(n, ast.FunctionDef) and n.name in ("__init__", "__post_init__", "__new__", "__getattr__", "__getattribute__") for n in c.body):
+            continue
+        fields = [n.target.id for n in c.body if isinstance(n, ast.AnnAssign) and isinstance(n.target, ast.Name) and "ClassVar" not in u(n.annotation)]
+        props = {n.name for n in c.body if isinstance(n, ast.FunctionDef)}
+        if fields and not (set(fields) & props):
+            out[cq] = fields
+    for m in ix.mods:
+        for name, v in ix.module_globals(m).items():
+            if isinstance(v, ast.Call) and u(v.func) in ("namedtuple", "collections.namedtuple") and len(v.args) == 2:
+                spec = v.args[1]
+                if isinstance(spec, ast.Constant) and isinstance(spec.value, str):
+                    out["%s.%s" % (m, name)] = spec.value.replace(",", " ").split()
+                elif isinstance(spec, (ast.List, ast.Tuple)) and all(isinstance(e, ast.Constant) and isinstance(e.value, str) for e in spec.elts):
+                    out["%s.%s" % (m, name)] = [e.value for e in spec.elts]
+    ix.__dict__["_records"] = out
+    return out
+
+
+def fold_records(ix, f, fn):
+    """record types are read through: `C(a, b).x` is `a`; a loop `for r in [C(a1, b1), C(a2, b2)]` whose body uses r only as r.<field> is the
+    loop `for (x, y) in [(a1, b1), (a2, b2)]`; a list of records bound once to a local and used only as that loop's iterable is put in place."""
+    recs = record_classes(ix)
+    if not recs:
+        return fn
+
+    def fields_of(call):
+        if not isinstance(call, ast.Call) or not isinstance(call.func, ast.Name):
+            return None
+        q = ix.resolve_name(f.mod, call.func.id)
+        q = q if q in recs else ("%s.%s" % (f.mod, call.func.id) if "%s.%s" % (f.mod, call.func.id) in recs else None)
+        if q is None:
+            imp = ix.imports.get(f.mod, {}).get(call.func.id)
+            if imp and imp[2] >= 1 and "%s.%s" % (imp[0], imp[1]) in recs:
+                q = "%s.%s" % (imp[0], imp[1])
+        if q is None or any(isinstance(a, ast.Starred) for a in call.args) or any(k.arg is None for k in call.keywords):
+            return None
+        fl = recs[q]
+        vals = dict(zip(fl, call.args))
+        for k in call.keywords:
+            vals[k.arg] = k.value
+        return [(x, vals[x]) for x in fl] if set(vals) == set(fl) and len(call.args) <= len(fl) else None
+
+    class A(ast.NodeTransformer):
+        def visit_Attribute(self, node):
+            self.generic_visit(node)
+            fv = fields_of(node.value) if isinstance(node.ctx, ast.Load) else None
+            if fv is not None and node.attr in dict(fv):
+                return ast.copy_location(dict(fv)[node.attr], node)
+            return node
+    fn = A().visit(fn)
+    # local lists of records used once, as a loop's iterable
+    counts = {}
+    for n in ast.walk(fn):
+        if isinstance(n, ast.Name):
+            counts.setdefault(n.id, [0, 0])[0 if isinstance(n.ctx, ast.Load) else 1] += 1
+
+    def fblock(stmts):
+        out = []
+        pending = {}
+        for s in stmts:
+            if isinstance(s, ast.Assign) and len(s.targets) == 1 and isinstance(s.targets[0], ast.Name) and isinstance(s.value, (ast.List, ast.Tuple)) and s.value.elts \
+                    and all(fields_of(e) is not None for e in s.value.elts) and counts.get(s.targets[0].id) == [1, 1]:
+                pending[s.targets[0].id] = s
+                out.append(s)
+                continue
+            if isinstance(s, ast.For) and isinstance(s.iter, ast.Name) and s.iter.id in pending and pending[s.iter.id] in out:
+                src = pending.pop(s.iter.id)
+                out.remove(src)
+                s.iter = src.value
+            if isinstance(s, ast.For) and isinstance(s.target, ast.Name) and isinstance(s.iter, (ast.List, ast.Tuple)) and s.iter.elts and all(fields_of(e) is not None for e in s.iter.elts):
+                rows = [fields_of(e) for e in s.iter.elts]
+                names = [x for x, _ in rows[0]]
+                r = s.target.id
+                uses = [n for b_ in s.body + s.orelse for n in ast.walk(b_) if isinstance(n, ast.Name) and n.id == r]
+                attrs = [n for b_ in s.body + s.orelse for n in ast.walk(b_) if isinstance(n, ast.Attribute) and isinstance(n.value, ast.Name) and n.value.id == r and isinstance(n.ctx, ast.Load)]
+                taken = _stored_names(fn) | {n.id for n in ast.walk(fn) if isinstance(n, ast.Name)}
+                if all([x for x, _ in row] == names for row in rows) and len(uses) == len(attrs) and all(a.attr in names for a in attrs) and counts.get(r, [0, 0])[1] == 1:
+                    new = {x: (x if x not in taken else "_%s_%s" % (r, x)) for x in names}
+
+                    class B(ast.NodeTransformer):
+                        def visit_Attribute(self, node):
+                            if isinstance(node.value, ast.Name) and node.value.id == r and isinstance(node.ctx, ast.Load):
+                                return ast.copy_location(ast.Name(id=new[node.attr], ctx=ast.Load()), node)
+                            return self.generic_visit(node)
+                    s.body = [B().visit(b_) for b_ in s.body]
+                    s.orelse = [B().visit(b_) for b_ in s.orelse]
+                    s.target = ast.Tuple(elts=[ast.Name(id=new[x], ctx=ast.Store()) for x in names], ctx=ast.Store())
+                    s.iter = ast.List(elts=[ast.Tuple(elts=[v for _, v in row], ctx=ast.Load()) for row in rows], ctx=ast.Load())
+            out.append(s)
+        return out
+    fn = _map_blocks(fn, fblock)
+    # records that only this function builds and takes apart (entries of a work list, say) are read as plain tuples: R(a, b) -> (a, b),
+    # x.<i-th field> -> x[i].  Only for record types the rules do not know by name, and only when every field name is a field of exactly one
+    # of the record types built here and is never called as a method (`xs.index(v)` stays a method call)
+    from .index import KNOWN_RECORDS
+    built = {}
+    for n in ast.walk(fn):
+        fv = fields_of(n) if isinstance(n, ast.Call) else None
+        if fv is not None and isinstance(n.func, ast.Name):
+            q = ix.resolve_name(f.mod, n.func.id) or "%s.%s" % (f.mod, n.func.id)
+            if q not in KNOWN_RECORDS and n.func.id not in {x.split(".")[-1] for x in KNOWN_RECORDS}:
+                built[n.func.id] = [x for x, _ in fv]
+    if built:
+        owner = {}
+        for r_, fl in built.items():
+            for i_, x in enumerate(fl):
+                owner.setdefault(x, []).append((r_, i_))
+        called = {n.func.attr for n in ast.walk(fn) if isinstance(n, ast.Call) and isinstance(n.func, ast.Attribute)}
+        stored = {n.attr for n in ast.walk(fn) if isinstance(n, ast.Attribute) and isinstance(n.ctx, (ast.Store, ast.Del))}
+        usable = {x: v[0][1] for x, v in owner.items() if len(v) == 1 and x not in stored}
+        if all(x in usable for fl in built.values() for x in fl):
+            class R(ast.NodeTransformer):
+                def visit_Call(self, node):
+                    # a field that is itself called (x.command(...)) is left alone together with its record
+                    self.generic_visit(node)
+                    fv2 = fields_of(node)
+                    if fv2 is not None and isinstance(node.func, ast.Name) and node.func.id in built:
+                        return ast.copy_location(ast.Tuple(elts=[v for _, v in fv2], ctx=ast.Load()), node)
+                    return node
+
+                def visit_Attribute(self, node):
+                    self.generic_visit(node)
+                    if isinstance(node.ctx, ast.Load) and node.attr in usable and not getattr(node, "_is_callee", False):
+                        return ast.copy_location(ast.Subscript(value=node.value, slice=ast.Constant(value=usable[node.attr]), ctx=ast.Load()), node)
+                    return node
+            for n in ast.walk(fn):
+                if isinstance(n, ast.Call) and isinstance(n.func, ast.Attribute):
+                    n.func._is_callee = True
+            fn = R().visit(fn)
+    ast.fix_missing_locations(fn)
+    return fn
 
 
 def fold_constants(fn, consts, single):
@@ -990,8 +1311,17 @@ def fold_stdlib(ix, f, fn, consts, single):
                 inner = opname(node.func.func)
                 if inner == "itemgetter":
                     return ast.copy_location(ast.Subscript(value=node.args[0], slice=node.func.args[0], ctx=ast.Load()), node)
+                if inner == "methodcaller" and isinstance(node.func.args[0], ast.Constant) and isinstance(node.func.args[0].value, str) and node.func.args[0].value.isidentifier():
+                    return ast.copy_location(ast.Call(func=ast.Attribute(value=node.args[0], attr=node.func.args[0].value, ctx=ast.Load()), args=[], keywords=[]), node)
                 if inner == "attrgetter" and isinstance(node.func.args[0], ast.Constant) and isinstance(node.func.args[0].value, str) and node.func.args[0].value.isidentifier():
                     return ast.copy_location(ast.Attribute(value=node.args[0], attr=node.func.args[0].value, ctx=ast.Load()), node)
+            # zip(xs, islice(xs, 1, None)) reads the same pairs as zip(xs, xs[1:])
+            if isinstance(node.func, ast.Name) and node.func.id == "zip":
+                for i_, a_ in enumerate(node.args):
+                    if isinstance(a_, ast.Call) and u(a_.func) in ("islice", "itertools.islice") and len(a_.args) in (2, 3) and isinstance(a_.args[0], ast.Name) and not a_.keywords:
+                        lo, hi = (None, a_.args[1]) if len(a_.args) == 2 else (a_.args[1], a_.args[2])
+                        none = lambda x: x is None or (isinstance(x, ast.Constant) and x.value is None)
+                        node.args[i_] = ast.copy_location(ast.Subscript(value=a_.args[0], slice=ast.Slice(lower=None if none(lo) else lo, upper=None if none(hi) else hi, step=None), ctx=ast.Load()), a_)
             op = opname(node.func)
             if op is None or not plain:
                 return node
@@ -1271,15 +1601,51 @@ def inline_expressions(ix, f, fn, keep=frozenset(), depth=3):
             return simple(e.func.value)            # accessor call without arguments: ctx.name()
         return False
 
+    # closures defined at the top level of this function whose body is one return expression over their parameters and over names of the
+    # enclosing function that are bound at most once (so the value read inside the closure is the value at any call)
+    stores = {}
+    for n in ast.walk(fn):
+        if isinstance(n, ast.Name) and isinstance(n.ctx, (ast.Store, ast.Del)):
+            stores[n.id] = stores.get(n.id, 0) + 1
+        elif isinstance(n, (ast.Global, ast.Nonlocal)):
+            for x in n.names:
+                stores[x] = stores.get(x, 0) + 2
+    local_defs = {}
+    for st_ in fn.body:
+        if isinstance(st_, ast.FunctionDef) and not st_.decorator_list and not any(isinstance(n, (ast.Yield, ast.YieldFrom, ast.Nonlocal, ast.Global)) for n in ast.walk(st_)) \
+                and stores.get(st_.name, 0) == 0 and not st_.args.vararg and not st_.args.kwarg and not st_.args.defaults and not st_.args.kwonlyargs:
+            ret, binds = single_return(st_)
+            if ret is None:
+                continue
+            ps = {a.arg for a in st_.args.posonlyargs + st_.args.args}
+            free = {x.id for e_ in [ret] + list(binds.values()) for x in ast.walk(e_) if isinstance(x, ast.Name)} - ps - set(binds)
+            if all(stores.get(x, 0) <= 1 for x in free) and not any(isinstance(c, ast.Call) and isinstance(c.func, ast.Name) and c.func.id == st_.name for c in ast.walk(st_)):
+                local_defs[st_.name] = st_
+
+    class LocalG:
+        cls = None
+
+        def __init__(self, node):
+            self.node = self.orig = node
+            self.name, self.qual, self.mod = node.name, "%s.<locals>.%s" % (f.qual, node.name), f.mod
+
     class T(ast.NodeTransformer):
         def __init__(self, d):
             self.d = d
+
+        def visit_FunctionDef(self, node):
+            if node is fn:
+                return self.generic_visit(node)
+            return node                 # nested definitions are read where they are called
 
         def visit_Call(self, node):
             self.generic_visit(node)
             if self.d <= 0:
                 return node
-            g = _resolve_helper(ix, f, node, keep)
+            if isinstance(node.func, ast.Name) and node.func.id in local_defs:
+                g = LocalG(local_defs[node.func.id])
+            else:
+                g = _resolve_helper(ix, f, node, keep)
             if g is None:
                 return node
             gnode = getattr(g, "orig", None) or g.node
@@ -1308,6 +1674,10 @@ def inline_expressions(ix, f, fn, keep=frozenset(), depth=3):
             expr = T(self.d - 1).visit(expr)
             return ast.copy_location(expr, node)
     fn = T(depth).visit(fn)
+    # a closure no call refers to any more is dropped from the analysed body
+    for name, d_ in local_defs.items():
+        if d_ in fn.body and not any(isinstance(n, ast.Name) and n.id == name for st_ in fn.body if st_ is not d_ for n in ast.walk(st_)):
+            fn.body.remove(d_)
     ast.fix_missing_locations(fn)
     return fn
 
@@ -1348,6 +1718,38 @@ def inline_function(ix, f, depth=2, _stack=(), keep=frozenset(), fn=None):
             return LocalFunc(g)
         return _resolve_helper(ix, f, call, keep, _stack)
 
+    def same_pure_binding(nm, body, mapping):
+        """the caller and the helper each bind `nm` exactly once, to the same argument-free accessor chain rooted at a parameter the caller
+        never rebinds (`name = ctx.name().getText()` on both sides, the helper's `ctx` being the caller's)"""
+        def chain_root(e):
+            while True:
+                if isinstance(e, ast.Call) and not e.args and not e.keywords and isinstance(e.func, ast.Attribute):
+                    e = e.func.value
+                elif isinstance(e, ast.Attribute):
+                    e = e.value
+                else:
+                    break
+            return e.id if isinstance(e, ast.Name) else None
+        mine = [n for n in ast.walk(fn) if isinstance(n, ast.Assign) and any(isinstance(t, ast.Name) and t.id == nm for t in n.targets)]
+        theirs = [n for s_ in body for n in ast.walk(s_) if isinstance(n, ast.Assign) and any(isinstance(t, ast.Name) and t.id == nm for t in n.targets)]
+        others = [n for n in ast.walk(fn) if isinstance(n, ast.Name) and n.id == nm and isinstance(n.ctx, (ast.Store, ast.Del))]
+        others_h = [n for s_ in body for n in ast.walk(s_) if isinstance(n, ast.Name) and n.id == nm and isinstance(n.ctx, (ast.Store, ast.Del))]
+        if len(mine) != 1 or len(theirs) != 1 or len(others) != 1 or len(others_h) != 1 or len(mine[0].targets) != 1 or len(theirs[0].targets) != 1:
+            return False
+        r1, r2 = chain_root(mine[0].value), chain_root(theirs[0].value)
+        if r1 is None or r2 is None:
+            return False
+        params_f = {a.arg for a in fn.args.posonlyargs + fn.args.args}
+        if r1 not in params_f or any(isinstance(n, ast.Name) and n.id == r1 and isinstance(n.ctx, ast.Store) for n in ast.walk(fn)):
+            return False
+        # the helper's root is one of its parameters, bound to the caller's root
+        arg = mapping.get(r2)
+        if not (isinstance(arg, ast.Name) and arg.id == r1):
+            return False
+        t1 = u(mine[0].value)
+        t2 = u(_Rename({}, {r2: ast.Name(id=r1, ctx=ast.Load())}).visit(copy.deepcopy(theirs[0].value)))
+        return " ".join(t1.split()) == " ".join(t2.split())
+
     def expand(call, k, same_name=None, tail=False):
         """k(value expr or None) -> statements continuing after the helper returned that value; tail: the call is the whole value of a
         `return`, so the helper's own returns are the caller's and its body is taken as it is (no continuation to distribute)"""
@@ -1384,6 +1786,8 @@ def inline_function(ix, f, depth=2, _stack=(), keep=frozenset(), fn=None):
                 exprs[p_] = mapping[p_]
         for nm in helper_stores - set(params):
             if nm in caller_names and nm != same_name and origin.get(nm) != g.qual:
+                if same_pure_binding(nm, body, mapping):
+                    continue            # both sides bind the name once to the same accessor chain of the same object: one name, one value
                 names[nm] = "_h%d_%s" % (counter[0], nm)
             elif nm not in caller_names:
                 origin[nm] = g.qual
@@ -1696,6 +2100,8 @@ def normal_form(ix, f, keep):
         lambda t: dispatch_comprehensions(t),
         lambda t: fold_constants(t, consts, single),
         lambda t: fold_stdlib(ix, f, t, consts, single),
+        lambda t: fold_records(ix, f, t),
+        lambda t: distribute_selectors(t),
         lambda t: unroll_const_loops(t, consts, single),
         lambda t: materialise_generators(ix, f, t, keep),
         lambda t: expand_maps(ix, f, t, keep),
